@@ -4,7 +4,7 @@ CONSTANTS
   MaxLen = 3
   MaxCrash = 2
   SaveBeforeSend = TRUE
-  ApplyAfterSave = TRUE
+  ApplyAfterSave = FALSE
   Self = 1
   Peers = {2, 3}
 INVARIANTS PersistBeforeSend RestartOK ApplyNotAheadOfSave
